@@ -47,87 +47,78 @@ def ctable(n, v, d, tb):
 # ------------------------------------------------------------------ generator
 
 def gen_history(rng, length, flavors=None, mode=None):
+    """a random history; the specification below is run alongside so that about 70 % of the operations are valid
+    for the state they meet (the rest name products, versions or tags that are not there)"""
     flavors = flavors or rng.choice(FLAVOR_PAIRS)
     mode = mode or rng.choice(MODES)
-    decl = {}          # rough tracker (s, n, v, f) -> d ; only used to aim at ~70 % valid operations
-    tagd = {}          # (s, n, t, f) -> v
+    decls, tags = {}, {}
     ops = []
     for _ in range(length):
         f = rng.choice(flavors)
         s = rng.choice([None, None, "s1", "s2"])
         o = {"f": f, "s": s, "F": rng.random() < 0.12, "N": rng.random() < 0.06}
-        known = [k for k in decl if k[3] == f and (s is None or k[0] == s)]
-        aim = rng.random() < 0.8 and known
+        known = [k for k in decls if k[3] == f and (s is None or k[0] == s)]
+        tk = [k for k in tags if k[3] == f and (s is None or k[0] == s)]
+        aim = rng.random() < 0.85
         r = rng.random()
-        if r < 0.42 or not decl:
+        if r < 0.40 or not decls:
             o["k"] = "D"
-            if aim and rng.random() < 0.35:                      # redeclare something that exists
+            if aim and known and rng.random() < 0.4:             # redeclare something that exists
                 k = rng.choice(known)
                 o["n"], o["v"] = k[1], k[2]
-                o["d"] = rng.choice([decl[k], decl[k], "A", "B", None])
+                same = decls[k][0].rsplit("-", 1)[1]
+                o["d"] = rng.choice([same, same, "A", "B", None])
+                o["t"] = rng.choice([None, "current", "stable", "beta"]) if o["d"] else rng.choice(TAGS)
             else:
                 o["n"], o["v"] = rng.choice(NAMES), rng.choice(VERSIONS)
-                o["d"] = rng.choice(["A", "A", "A", "B", None])
+                o["d"] = rng.choice(["A", "A", "A", "A", "B", None])
+                o["t"] = rng.choice([None, None, "current", "stable", "beta"])
             o["tb"] = "alt" if (o["d"] and rng.random() < 0.12) else None
-            o["t"] = rng.choice([None, None, "current", "stable", "beta"])
-            if o["d"] is None and o["t"] is None and rng.random() < 0.8:
-                o["t"] = rng.choice(TAGS)
-            tg = s or "s1"
-            if not o["N"] and o["d"]:
-                decl.setdefault((tg, o["n"], o["v"], f), o["d"])
-            if not o["N"] and o["t"] and (tg, o["n"], o["v"], f) in decl:
-                tagd[(tg, o["n"], o["t"], f)] = o["v"]
-        elif r < 0.55:
+        elif r < 0.53:
             o["k"] = "A"
             o["t"] = rng.choice(TAGS)
-            if aim:
+            if aim and known:
                 k = rng.choice(known)
                 o["n"], o["v"] = k[1], k[2]
-                tagd[(k[0], k[1], o["t"], f)] = k[2]
             else:
                 o["n"], o["v"] = rng.choice(NAMES), rng.choice(VERSIONS)
-        elif r < 0.66:
+        elif r < 0.65:
             o["k"] = "U"
-            tk = [k for k in tagd if k[3] == f and (s is None or k[0] == s)]
-            if rng.random() < 0.8 and tk:
+            if aim and tk:
                 k = rng.choice(tk)
                 o["t"], o["n"] = k[2], k[1]
-                o["v"] = rng.choice([None, tagd[k], tagd[k], rng.choice(VERSIONS)])
-                tagd.pop(k, None)
+                o["v"] = rng.choice([None, tags[k], tags[k]])
+            elif aim and known:
+                k = rng.choice(known)
+                o["t"], o["n"], o["v"] = rng.choice(TAGS), k[1], k[2]
             else:
                 o["t"], o["n"], o["v"] = rng.choice(TAGS), rng.choice(NAMES), rng.choice([None] + VERSIONS)
-        elif r < 0.82:
+        elif r < 0.81:
             o["k"] = "X"
-            if aim:
+            if aim and known:
                 k = rng.choice(known)
                 o["n"], o["v"] = k[1], rng.choice([k[2], k[2], k[2], None])
-                if not o["N"]:
-                    decl.pop(k, None)
-                    for tkk in [x for x in tagd if x[0] == k[0] and x[1] == k[1] and x[3] == f and tagd[x] == k[2]]:
-                        tagd.pop(tkk)
             else:
                 o["n"], o["v"] = rng.choice(NAMES), rng.choice([None] + VERSIONS)
         elif r < 0.92:
             o["k"] = "T"
-            o["t"] = rng.choice(TAGS)
             o["both"] = rng.random() < 0.5
-            tk = [k for k in tagd if k[3] == f and (s is None or k[0] == s)]
-            if rng.random() < 0.8 and tk:
+            if aim and tk:
                 k = rng.choice(tk)
                 o["t"], o["n"] = k[2], k[1]
-                o["v"] = rng.choice([None, None, tagd[k]])
+                o["v"] = rng.choice([None, None, tags[k]])
             else:
-                o["n"], o["v"] = rng.choice(NAMES), rng.choice([None] + VERSIONS)
+                o["t"], o["n"], o["v"] = rng.choice(TAGS), rng.choice(NAMES), rng.choice([None] + VERSIONS)
         else:
             o["k"] = "R"
             o["s"] = None
-            if aim:
+            known = [k for k in decls if k[3] == f]
+            if aim and known:
                 k = rng.choice(known)
                 o["n"], o["v"] = k[1], k[2]
-                if not o["N"]:
-                    decl.pop(k, None)
             else:
                 o["n"], o["v"] = rng.choice(NAMES), rng.choice(VERSIONS)
+        _, decls, tags = spec_step(decls, tags, o)
         ops.append(o)
     return {"flavors": flavors, "mode": mode, "ops": ops}
 
@@ -588,12 +579,6 @@ def oracle(case, obs):
     return None
 
 
-def two_stacks_same_version_tagged(case, upto):
-    """signature of D14 on a history prefix: the same (product, version, flavor) is declared in two stacks and both
-    carry the same tag when a declare-with-tag (or first declaration) of that product and flavor moves it"""
-    return True
-
-
 # ------------------------------------------------------------------ comparison, shrinking
 
 KEYS = ["out", "decls", "tags", "dirs", "vf", "cf", "resolve"]
@@ -661,11 +646,6 @@ def shape(case):
                                    len(case["ops"]) // 5 * 5 + 4)
 
 
-def m_stale_tag(f):
-    """D14 (only used if the defect is recorded as open instead of repaired)"""
-    return f["kind"] in ("tag-not-moved",)
-
-
 def process(ctx, results, pinned=False, budget=[6]):
     for c, m, i, dis, orc in results:
         ctx.count(len(c["ops"]), key=shape(c),
@@ -721,7 +701,6 @@ def configure(ctx):
         "product directories and table files lie outside the stacks, exist, and table files differ in content iff they differ in path",
         "every ups_db is writable; no product is set up; fallback flavor list is the shipped one (flavor, generic)",
         "a target stack that is not given means the first stack of EUPS_PATH for declare (the home-stack inference from the product directory is not modelled)"]
-    ctx.matchers["c06.stale_tag_second_stack"] = m_stale_tag
 
 
 def run(ctx):
@@ -730,7 +709,7 @@ def run(ctx):
     try:
         corp = corpus_cases()
         process(ctx, evaluate(ctx, corp))
-        nh = ctx.size(150, 3000)
+        nh = ctx.size(600, 3000)
         lo, hi = 5, ctx.size(25, 60)
         cases = [gen_history(ctx.rng, ctx.rng.randint(lo, hi)) for _ in range(nh)]
         for c in cases[:2]:
